@@ -143,6 +143,16 @@ def check_field(I, chk, cfg, struct, path, term, exp, outcome, flag_leaves):
         # exact sub-layout is C16's; here: inside the message and not overlapping other fields
         if lo < off - 1 or hi > off + w:
             return bad("communication state read from bits %d..%d" % (lo, hi - 1))
+        # the slot parameters are plain transmitted integers (no sign extension, no arithmetic)
+        if term[0] == "group":
+            for (sp, st_) in term[1]:
+                fname = sp.rsplit(".", 1)[-1]
+                if fname in ("sync_state", "keep") or st_[0] == "unitvariant":
+                    continue
+                if st_[0] != "bits":
+                    chk.ob(False, "%s%s/got=%s" % (key, sp.replace("radio_status", ""), short(st_)),
+                           "%s.%s [%s]: slot parameter is not the transmitted unsigned integer: %s" % (struct, sp, cfg, short(st_)))
+                    return False
         return chk.ob(True)
     # wrapped single-source fields: enum, opt, scaled, lon/lat, flag
     core, ws = strip_wrappers(term)
